@@ -11,9 +11,9 @@
 //!
 //! Answer:
 //!   R=<OK|E<code>:<line>>;cb=<bytes given to the callback>,<callback calls>;nr=<read calls>;
-//!   ms=<largest buffer offered to read()>;T=<files>,<inline origins>,<publics>,<url?>
+//!   ms=<largest buffer offered to read()>;T=<canonical text of the whole symbol table, see render_table>
 //!   ;;cbok=<callback bytes are a prefix of the input>;W=<result of the whole-slice parse>;
-//!   eq=<chunked table == whole table, or both errors>;X=<functions>,<cfi>,<win fd>,<win fpo>,<hash>
+//!   eq=<chunked table == whole table, or both errors>
 //!   ;D=<result of parsing the input with every line of >= 163840 content bytes removed, or ->
 //!   ;deq=<that table == chunked table>
 //! The part before ";;" is what the Coq model predicts; the rest is for the property oracle.
@@ -115,48 +115,148 @@ pub fn class(r: &Result<SymbolFile, SymbolError>) -> String {
     }
 }
 
-/// order-independent rendering of the whole table
-pub fn table_hash(s: &SymbolFile) -> (String, String) {
-    let mut h: u64 = 0xcbf29ce484222325;
-    fnv(&mut h, s.module_id.as_bytes());
-    fnv(&mut h, b"\0");
-    fnv(&mut h, s.debug_file.as_bytes());
+/// strings: up to 40 bytes as hex, longer ones as L<length>H<FNV-1a 64>; '-' for the empty string
+pub fn rs(s: &str) -> String {
+    let b = s.as_bytes();
+    if b.is_empty() {
+        "-".to_string()
+    } else if b.len() <= 40 {
+        vharness::hex(b)
+    } else {
+        let mut h: u64 = 0xcbf29ce484222325;
+        fnv(&mut h, b);
+        format!("L{}H{:016x}", b.len(), h)
+    }
+}
+
+/// inverse of the escaping that `{:?}` applies to a str (StackInfoWin / WinStackThing are not nameable from
+/// outside the crate without its private `fuzz` feature, so the variant is read off the Debug text)
+fn unescape_debug(s: &str) -> String {
+    let mut out = String::new();
+    let mut it = s.chars().peekable();
+    while let Some(c) = it.next() {
+        if c != '\\' {
+            out.push(c);
+            continue;
+        }
+        match it.next() {
+            Some('n') => out.push('\n'),
+            Some('r') => out.push('\r'),
+            Some('t') => out.push('\t'),
+            Some('0') => out.push('\0'),
+            Some('u') => {
+                let mut hex = String::new();
+                it.next(); // {
+                for h in it.by_ref() {
+                    if h == '}' {
+                        break;
+                    }
+                    hex.push(h);
+                }
+                out.push(char::from_u32(u32::from_str_radix(&hex, 16).expect("hex")).expect("char"));
+            }
+            Some(o) => out.push(o),
+            None => {}
+        }
+    }
+    out
+}
+
+fn thing_text(dbg: &str) -> String {
+    if dbg.starts_with("AllocatesBasePointer(true") {
+        "B1".to_string()
+    } else if dbg.starts_with("AllocatesBasePointer(false") {
+        "B0".to_string()
+    } else {
+        let inner = dbg.strip_prefix("ProgramString(\"").and_then(|x| x.strip_suffix("\")")).expect("ProgramString");
+        format!("P{}", rs(&unescape_debug(inner)))
+    }
+}
+
+macro_rules! render_win {
+    ($m:expr) => {
+        $m.ranges_values()
+            .map(|(r, w)| {
+                format!(
+                    "{}-{}:{}:{}:{}:{}:{}:{}:{}:{}:{}",
+                    r.start,
+                    r.end,
+                    w.address,
+                    w.size,
+                    w.prologue_size,
+                    w.epilogue_size,
+                    w.parameter_size,
+                    w.saved_register_size,
+                    w.local_size,
+                    w.max_stack_size,
+                    thing_text(&format!("{:?}", w.program_string_or_base_pointer))
+                )
+            })
+            .collect::<Vec<_>>()
+            .join(" ")
+    };
+}
+
+/// canonical text of the whole symbol table (the same text is produced by ocaml/c09/main.ml from the model)
+pub fn render_table(s: &SymbolFile) -> String {
     let mut files: Vec<_> = s.files.iter().collect();
     files.sort();
-    fnv(&mut h, format!("{:?}", files).as_bytes());
     let mut origins: Vec<_> = s.inline_origins.iter().collect();
     origins.sort();
-    fnv(&mut h, format!("{:?}", origins).as_bytes());
-    fnv(&mut h, format!("{:?}", s.publics).as_bytes());
-    let mut nf = 0;
-    for (r, f) in s.functions.ranges_values() {
-        nf += 1;
-        fnv(&mut h, format!("{:?}{:?}", r, f).as_bytes());
-    }
-    let mut nc = 0;
-    for (r, f) in s.cfi_stack_info.ranges_values() {
-        nc += 1;
-        fnv(&mut h, format!("{:?}{:?}", r, f).as_bytes());
-    }
-    let mut nwd = 0;
-    for (r, f) in s.win_stack_framedata_info.ranges_values() {
-        nwd += 1;
-        fnv(&mut h, format!("{:?}{:?}", r, f).as_bytes());
-    }
-    let mut nwf = 0;
-    for (r, f) in s.win_stack_fpo_info.ranges_values() {
-        nwf += 1;
-        fnv(&mut h, format!("{:?}{:?}", r, f).as_bytes());
-    }
-    fnv(&mut h, format!("{:?}", s.url).as_bytes());
-    let t = format!(
-        "{},{},{},{}",
-        s.files.len(),
-        s.inline_origins.len(),
-        s.publics.len(),
-        if s.url.is_some() { 1 } else { 0 }
-    );
-    (t, format!("{},{},{},{},{:016x}", nf, nc, nwd, nwf, h))
+    let fm = |v: &Vec<(&u32, &String)>| v.iter().map(|(k, n)| format!("{}:{}", k, rs(n))).collect::<Vec<_>>().join(",");
+    let pubs: Vec<String> =
+        s.publics.iter().map(|p| format!("{}:{}:{}", p.address, p.parameter_size, rs(&p.name))).collect();
+    let funcs: Vec<String> = s
+        .functions
+        .ranges_values()
+        .map(|(r, f)| {
+            let lines: Vec<String> = f
+                .lines
+                .ranges_values()
+                .map(|(r, l)| format!("{}-{}:{}:{}:{}:{}", r.start, r.end, l.address, l.size, l.file, l.line))
+                .collect();
+            let inls: Vec<String> = f
+                .inlinees
+                .iter()
+                .map(|e| format!("{}/{}/{}/{}/{}/{}", e.depth, e.address, e.size, e.call_file, e.call_line, e.origin_id))
+                .collect();
+            format!(
+                "{}-{}:{}:{}:{}:{}({})({})",
+                r.start,
+                r.end,
+                f.address,
+                f.size,
+                f.parameter_size,
+                rs(&f.name),
+                lines.join(","),
+                inls.join(",")
+            )
+        })
+        .collect();
+    let cfis: Vec<String> = s
+        .cfi_stack_info
+        .ranges_values()
+        .map(|(r, c)| {
+            let add: Vec<String> = c.add_rules.iter().map(|a| format!("{}:{}", a.address, rs(&a.rules))).collect();
+            format!("{}-{}:{}:{}:{}({})", r.start, r.end, c.init.address, c.size, rs(&c.init.rules), add.join(","))
+        })
+        .collect();
+    format!(
+        "M{}|{}#F{}#O{}#P{}#N{}#C{}#WD{}#WF{}#U{}",
+        rs(&s.module_id),
+        rs(&s.debug_file),
+        fm(&files),
+        fm(&origins),
+        pubs.join(","),
+        funcs.join(" "),
+        cfis.join(" "),
+        render_win!(s.win_stack_framedata_info),
+        render_win!(s.win_stack_fpo_info),
+        match &s.url {
+            Some(u) => format!("S{}", rs(u)),
+            None => "N".to_string(),
+        }
+    )
 }
 
 pub fn run(line: &str) -> String {
@@ -179,9 +279,9 @@ pub fn run(line: &str) -> String {
         (Err(_), Err(_)) => true,
         _ => false,
     };
-    let (t, x) = match &res {
-        Ok(s) => table_hash(s),
-        Err(_) => ("-".to_string(), "-".to_string()),
+    let t = match &res {
+        Ok(s) => render_table(s),
+        Err(_) => "-".to_string(),
     };
     // the same input without its over-long lines (C09: such a line is dropped as corrupt)
     let mut stripped: Vec<u8> = Vec::new();
@@ -220,7 +320,7 @@ pub fn run(line: &str) -> String {
         ("-".to_string(), "-")
     };
     format!(
-        "R={};cb={},{};nr={};ms={};T={};;cbok={};W={};eq={};X={};D={};deq={}",
+        "R={};cb={},{};nr={};ms={};T={};;cbok={};W={};eq={};D={};deq={}",
         class(&res),
         cblen,
         cbcalls,
@@ -230,7 +330,6 @@ pub fn run(line: &str) -> String {
         if cbok { 1 } else { 0 },
         class(&whole),
         if eq { 1 } else { 0 },
-        x,
         d,
         deq
     )
